@@ -343,6 +343,21 @@ class IkeSa(object):
                     request = handler(*args)
                     if request:
                         return request
+
+            # if this IKE_SA has just been replaced by the one it negotiated (rekey), the events that were waiting here
+            # are the business of the successor
+            if self.state == IkeSa.State.DELETED and self.new_ike_sa is not None and self.pending_events:
+                successor = self.new_ike_sa
+                successor.pending_events += [(getattr(successor, x[0].__name__), *x[1:]) for x in self.pending_events]
+                self.pending_events = []
+                if successor.state == IkeSa.State.ESTABLISHED:
+                    for x in list(successor.pending_events):
+                        successor.pending_events.remove(x)
+                        self.log_debug('Processing pending event on the new IKE_SA')
+                        handler, *args = x
+                        request = handler(*args)
+                        if request:
+                            return request
         except (IkeSaError, IkeSaStateError) as ex:
             self.log_error(str(ex))
             self.state = IkeSa.State.DELETED
